@@ -54,8 +54,10 @@ def generate(rng, idx, tier, variant):
             tr = rng.choice(handles)
         reset = rng.random() < 0.15
         off_call = rng.random() < 0.2  # this call is made with tracing off on the traced party too
+        off_as = None
         if off_call:
-            tr = rng.choice([None, False])
+            tr = None
+            off_as = rng.choice(['None', 'False', 'False', '0', 'np.False_', 'empty-list', 'empty-str', 'omitted'])  # every falsy spelling is 'off'
             reset = False
         entry = rng.choice(['solve_t', 'solve_t', 'solve_period', 'solve']) if not dup_labels else 'solve_t'
         tn = rng.randint(lags, n - 1 - leads)
@@ -104,6 +106,7 @@ def generate(rng, idx, tier, variant):
             'trace': tr,
             'reset': reset,
             'respecified': respecified,
+            'off_as': off_as,
         }
         if spec['kind'] == 'scripted':
             plan, placed = S.gen_plan(rng, opts, spec, faults, idx)
@@ -252,6 +255,11 @@ def execute(schedule, ctx):
 
         tracing = bool(tr)
         extra = {'trace': tr} if (tr is not None) else {}
+        if not tracing and op.get('off_as') not in (None, 'omitted', 'None'):
+            extra = {'trace': {'False': False, '0': 0, 'np.False_': np.bool_(False), 'empty-list': [], 'empty-str': ''}[op['off_as']]}
+            ctx.probe('tracing-off-spelt:' + op['off_as'])
+        elif not tracing and op.get('off_as') == 'None':
+            extra = {'trace': None}
         if reset:
             extra['reset'] = True
         names = _trace_names(A, tr, spec) if tracing else None
